@@ -4,6 +4,7 @@ import (
 	"context"
 	"crypto/tls"
 	"encoding/json"
+	"errors"
 	"fmt"
 	"net/http"
 	"time"
@@ -98,6 +99,8 @@ func (s *Scanner) Scan(ctx context.Context, r *scan.Request) (result scan.Result
 	return
 }
 
+var errNotObject = errors.New("response body is not a JSON object")
+
 type elasticClient struct {
 	client      *http.Client
 	proto       string
@@ -125,6 +128,12 @@ func (c *elasticClient) Get(ctx context.Context, url string) (data map[string]in
 	}
 	defer resp.Body.Close()
 	decoder := json.NewDecoder(resp.Body)
-	err = decoder.Decode(&data)
+	if err = decoder.Decode(&data); err != nil {
+		return
+	}
+	// a JSON null decodes into a nil map without an error
+	if data == nil {
+		err = errNotObject
+	}
 	return
 }
